@@ -17,6 +17,7 @@ PATTERNS = {
     "dead-continuation": "(define (pat@@ i) (let ([b (box i)]) (call/cc (lambda (k) (set-box! b k) 'ok))))",
     "hash-holding-box-cycle": "(define (pat@@ i) (let ([b (box #f)]) (set-box! b (hash 'self b 'n i)) 'ok))",
 }
+ROUNDS = 14   # > RESET_LIMIT + 2 full collections: at least one compaction falls inside
 DRIVER = "(define (drive@@ n) (let loop ([i 0]) (if (< i n) (begin (pat@@ i) (loop (+ i 1))) 'done)))"
 
 
@@ -28,7 +29,11 @@ def case(name, pat, n, tag):
              {"op": "heap_stats", "class": "ok", "emit": ["slots<=bound", "accounting:exact", "live:small", "slots<=bound", "accounting:exact", "live:small"]},
              {"src": f"(drive@@ {n})", "class": "ok"},
              {"src": "(#%gc-collect)", "class": "ok"},
-             {"op": "heap_stats", "class": "ok", "emit": ["slots<=bound", "accounting:exact", "live:small", "slots<=bound", "accounting:exact", "live:small"]}]
+             {"op": "heap_stats", "class": "ok", "emit": ["slots<=bound", "accounting:exact", "live:small", "slots<=bound", "accounting:exact", "live:small"]},
+             # boundedness over the collector's whole growth / compaction cycle: ROUNDS full collections with
+             # fresh garbage of this pattern in between; the slot count must come back down and stay under the ceiling
+             {"op": f"gc_rounds:{ROUNDS}:(drive@@ {n // 4})", "class": "ok",
+              "emit": ["min-slots:small", "max-slots:bounded", "accounting:exact", "live:small"]}]
     return {"id": f"{tag}-{name}-{n}", "fresh": True, "tag": f"pattern:{name}", "steps": steps}
 
 
